@@ -107,7 +107,7 @@ def script_text(kind, style="gen"):
     simulated device receives decode injectively to (script kind, argument)."""
     verb = kind.upper()
     per = 'expect "([^ \\n]+) (OK|ERR[A-Z]*)\\n"\n\t\t\tsetresult $1 $2 success="OK"'
-    st = 'expect "([^ \\n]+) ([A-Za-z0-9]+)\\n"\n\t\t\tsetplugstate $1 $2 on="^ON$" off="^OFF$"'
+    st = 'expect "([^ \\n]+) ([A-Za-z0-9]+)\\n"\n\t\t\tsetplugstate $1 $2 on="ON" off="OFF"'
     tm = 'expect "([^ \\n]+) ([A-Za-z0-9]+)\\n"\n\t\t\tsetplugstate $1 $2'
     if kind == "login":
         return 'send "LOGIN\\n"\n\t\texpect "ready\\n"'
